@@ -231,6 +231,69 @@ def r26_4(ctx, rep):
     rep.ob(R, CLI + ":main", "invalid option combination -> argp.error", len(errs) >= 1, "an invalid combination of arguments must go through argparse's error() (usage message, exit code 2)")
 
 
+@SPEC.rule(
+    "R26.5",
+    "no per-model state carried between iterations: in every `for model in args.model` loop a local variable that is "
+    "assigned inside the loop body is (re)defined in the body on every path before it is read there — otherwise the "
+    "outcome of one model depends on the models requested before it (pure accumulators such as `errors += 1` excepted)",
+)
+def r26_5(ctx, rep):
+    R = "R26.5"
+    fn = ctx.func(CLI, "main", R)
+    cfg = CFG(fn, R)
+    n = 0
+    for lp in ast.walk(fn):
+        if not (isinstance(lp, ast.For) and norm(lp.iter) == "args.model"):
+            continue
+        it = [x for x in cfg.nodes if x.kind == "iter" and x.ast is lp][0]
+        entry = [s_ for s_ in cfg.succ[it.id] if cfg.nodes[s_].kind == "assume" and cfg.nodes[s_].taken][0]
+        body_nodes = cfg.reachable(entry, avoid={it.id})
+        assigned = {}
+        for nid in body_nodes:
+            x = cfg.nodes[nid]
+            a = x.ast
+            if x.kind == "stmt" and isinstance(a, ast.Assign):
+                for t in a.targets:
+                    for nm in ast.walk(t):
+                        if isinstance(nm, ast.Name) and isinstance(nm.ctx, ast.Store):
+                            assigned.setdefault(nm.id, set()).add(nid)
+            elif x.kind == "iter":
+                for nm in ast.walk(a.target):
+                    if isinstance(nm, ast.Name):
+                        assigned.setdefault(nm.id, set()).add(nid)
+            elif x.kind == "handler" and a.name:
+                assigned.setdefault(a.name, set()).add(nid)
+        for var, defs in sorted(assigned.items()):
+            if var == "_":
+                continue
+            uses = []
+            for nid in body_nodes:
+                x = cfg.nodes[nid]
+                if x.kind in ("stmt", "test") and not isinstance(x.ast, (ast.FunctionDef, ast.ClassDef)):
+                    expr = x.ast
+                    loads = [nm for nm in ast.walk(expr) if isinstance(nm, ast.Name) and nm.id == var and isinstance(nm.ctx, ast.Load)]
+                    if loads:
+                        uses.append(nid)
+                elif x.kind == "iter" and any(isinstance(nm, ast.Name) and nm.id == var for nm in ast.walk(x.ast.iter)):
+                    uses.append(nid)
+            n += 1
+            bad = None
+            for u in uses:
+                w = cfg.path(entry, u, avoid=(defs | {it.id}) - {u})
+                if w is not None and u not in defs:
+                    bad = w
+                    break
+                if w is not None and u in defs and isinstance(cfg.nodes[u].ast, ast.Assign) and any(
+                        isinstance(nm, ast.Name) and nm.id == var and isinstance(nm.ctx, ast.Load) for nm in ast.walk(cfg.nodes[u].ast.value)):
+                    bad = w
+                    break
+            rep.ob(R, CLI + ":main", "loop variable `%s` in for model loop #%d" % (var, lp.lineno and [l for l in ast.walk(fn) if isinstance(l, ast.For) and norm(l.iter) == "args.model"].index(lp) + 1), bad is None,
+                   "`%s` is assigned while processing one model and can be read while processing the next one before it is set again: "
+                   "a model's outcome then depends on what was requested before it" % var, path=cfg.describe(bad) if bad else "")
+    if n < 2:
+        raise MechanismMissing(R, "fewer than 2 per-model local variables found")
+
+
 # -- seeded variants ---------------------------------------------------------
 from ._mut import delete_stmt_where, replace_in_func  # noqa: E402
 
@@ -278,6 +341,21 @@ def _m4(mod):
             if isinstance(st, ast.Return) and is_name(st.value, "errors") and i == len(fn.body) - 1:
                 st.value = ast.parse("min(errors, 1)", mode="eval").body
                 return True
+        return False
+
+    return mod if replace_in_func(mod, "main", edit) else None
+
+
+@SPEC.mutant("model_dir initialised once before the loop", CLI, "R26.5", "model_dir")
+def _m5(mod):
+    def edit(fn):
+        for lp in ast.walk(fn):
+            if isinstance(lp, ast.For) and norm(lp.iter) == "args.model":
+                for i, st in enumerate(lp.body):
+                    if norm(st) == "model_dir = None":
+                        lp.body.pop(i)
+                        fn.body.insert(0, st)
+                        return True
         return False
 
     return mod if replace_in_func(mod, "main", edit) else None
